@@ -23,6 +23,14 @@ theorem iteration_follows_index (o : Orient) (tg : Target) (shp shx : Bytes) (id
     unfold RState.fuel; rw [hidx]; simp only; omega
   rw [hinv.drain st.fuel hfuel, hn, List.drop_zero, collectShapes_shapes]
 
+/-- in particular an index without entries yields nothing, whatever the .shp holds behind its
+header (stale records, filler): the reader does not fall back to sequential reading -/
+theorem empty_index_yields_nothing (o : Orient) (tg : Target) (shp shx : Bytes) (h : Header) (rest xr : Bytes)
+    (hx : readIndexFile shx = .ok [] xr) (hh : readHeader shp = .ok h rest) :
+    readAll o tg shp (some shx) = .ok [] :=
+  iteration_follows_index o tg shp shx [] [] h rest xr hx hh
+    ⟨rfl, fun i h1 _ => absurd h1 (by simp)⟩
+
 /-- iteration agrees with random access by index and with the reported shape count -/
 theorem iteration_eq_random_access (o : Orient) (tg : Target) (shp shx : Bytes) (idx : List IndexEntry)
     (shapes : List Shape) (h : Header) (rest xr : Bytes)
